@@ -27,6 +27,9 @@ type CWorld struct {
 	// CatTables lists the tables (indices into Tables) the shared catalog holds; nil = all of them. A subset makes
 	// readers fall back from FindExact to FindLatest and to placeholder tables (version skew).
 	CatTables []int `json:"cat_tables,omitempty"`
+	// Slices are slices of shared tables that tasks pass as they are (tables...) to writers, encoders, builders and
+	// Marshal calls; they are built with spare capacity, as slices that were appended to usually have.
+	Slices [][]int `json:"slices,omitempty"`
 }
 
 type CView struct {
@@ -36,10 +39,11 @@ type CView struct {
 
 // IonWorld holds the real shared ion-go objects built from a CWorld.
 type IonWorld struct {
-	SSTs  []ion.SharedSymbolTable
-	Views []ion.SharedSymbolTable
-	Cat   ion.Catalog
-	model CWorld
+	SSTs   []ion.SharedSymbolTable
+	Views  []ion.SharedSymbolTable
+	Cat    ion.Catalog
+	Slices [][]ion.SharedSymbolTable
+	model  CWorld
 }
 
 func BuildIonWorld(w CWorld) *IonWorld {
@@ -47,6 +51,13 @@ func BuildIonWorld(w CWorld) *IonWorld {
 	iw.SSTs = SharedTables(w.Tables)
 	for _, v := range w.Views {
 		iw.Views = append(iw.Views, iw.SSTs[v.Table%len(iw.SSTs)].Adjust(v.MaxID))
+	}
+	for _, idx := range w.Slices {
+		sl := make([]ion.SharedSymbolTable, 0, len(idx)+3)
+		for _, i := range idx {
+			sl = append(sl, iw.SSTs[i%len(iw.SSTs)])
+		}
+		iw.Slices = append(iw.Slices, sl)
 	}
 	if w.CatTables == nil {
 		iw.Cat = ion.NewCatalog(iw.SSTs...)
@@ -71,7 +82,13 @@ func (w *IonWorld) table(i int) ion.SharedSymbolTable {
 	return w.SSTs[i%len(w.SSTs)]
 }
 
+// SliceRef marks an Imports list that names a shared slice: Imports == []int{SliceRef - k} uses Slices[k] itself.
+const SliceRef = -1000
+
 func (w *IonWorld) tables(idx []int) []ion.SharedSymbolTable {
+	if len(idx) == 1 && idx[0] <= SliceRef && len(w.Slices) > 0 {
+		return w.Slices[(SliceRef-idx[0])%len(w.Slices)]
+	}
 	var out []ion.SharedSymbolTable
 	for _, i := range idx {
 		out = append(out, w.table(i))
@@ -114,6 +131,13 @@ func (w *IonWorld) Digest() string {
 		digestTable(&sb, fmt.Sprintf("view[%d]", i), t)
 	}
 	digestTable(&sb, "system", ion.V1SystemSymbolTable)
+	for i, sl := range w.Slices {
+		fmt.Fprintf(&sb, "slice[%d] len=%d:", i, len(sl))
+		for _, t := range sl {
+			fmt.Fprintf(&sb, " %s/%d/%d", t.Name(), t.Version(), t.MaxID())
+		}
+		sb.WriteByte('\n')
+	}
 	ident := func(t ion.SharedSymbolTable) string {
 		if t == nil {
 			return "nil"
